@@ -156,8 +156,11 @@ class _DrainRequestMiddleware:
         req_succeeded: bool,
     ) -> None:
         """Drain any unread request body data."""
+        # exhaust() discards in fixed-size chunks; read() would first build one
+        # bytes object of the whole remaining body -- including a body that was
+        # just refused with 413 for being larger than the server accepts.
         with contextlib.suppress(Exception):
-            req.bounded_stream.read()
+            req.bounded_stream.exhaust()
 
 
 class _RequestIdMiddleware:
